@@ -104,3 +104,17 @@ Definition gen_db_get_tag_values (self : pydb) (tag_keys : list str) (measuremen
     (db_rows self) rst in
   (fold_left (fun acc '(i, j) => d_set i (sort_none_last j) acc) rst [])).
 
+(* class Measurement (measurement.py): self._db is the database object, self._name the handle's name *)
+Definition gen_meas___len__ (self : pydb) (name : str) : nat :=
+  if (andb (db_auto self) (IndexGen.gen_valid (db_index self)))
+  then (if (d_has name (_measurements (db_index self)))
+  then ((length (d_get [] name (_measurements (db_index self)))))
+  else (0))
+  else (let count := 0 in
+  let count := fold_left (fun count item =>
+    let count := (if (pyeq (p_meas item) name) then (let count := (count + 1) in
+  count) else (count)) in
+  count)
+    (db_rows self) count in
+  count).
+
